@@ -113,10 +113,18 @@ def groupOf (p : Prog) (labels : List Nat) (g : Nat) : Option Group :=
 def featMask (g : Group) (α : List Rat) : List Bool :=
   if g.frozen then List.replicate g.width true else featuresMask g.width (ofList α)
 
-/-- certificate a labelling must pass: equal labels across every kept edge, and the masker of
-the class of every features-defining node has that node's width -/
+/-- the computed forward reachability is closed under the rule that defines it: whenever a user
+`u` of `t` is an excluded layer, a network output, or a non-defining node that itself reaches one,
+`t` is marked -/
+def closedReach (p : Prog) (r : List Bool) : Bool :=
+  p.zipIdx.all fun (op, u) => op.inputs.all fun t =>
+    !(op.excluded || op.isOutput || (!op.defining && r.getD u false)) || r.getD t false
+
+/-- certificate a labelling must pass: equal labels across every kept edge, the reachability
+marks are closed, and the masker of the class of every features-defining node has that node's
+width -/
 def labelsOK (p : Prog) (l : List Nat) : Bool :=
-  (keptEdges p).all (fun (i, n) => l.getD i 0 == l.getD n 0) &&
+  (keptEdges p).all (fun (i, n) => l.getD i 0 == l.getD n 0) && closedReach p (reachFixed p) &&
   (List.range p.length).all fun n =>
     !(getOp p n).defining ||
       (match groupOf p l (l.getD n 0) with
